@@ -12,6 +12,10 @@ func (scanner *BlockScanner) streamBlocks(
 	fromHeight, toHeight uint32,
 	parallelism uint32,
 ) (chan *blocks.Block, chan error) {
+	if toHeight < fromHeight {
+		panic(ErrInvalidBlockHeight)
+	}
+
 	cancelCtx, cancel := context.WithCancel(ctx)
 
 	orderedBlockQueue := make(chan *blocks.Block)
@@ -33,6 +37,12 @@ func (scanner *BlockScanner) streamBlocks(
 		latestBlockHash, err := firstBlock.Header.Hash()
 		if err != nil {
 			wrappedErrorQueue <- err
+			return
+		}
+
+		if fromHeight == toHeight {
+			// A single-block range: there are no further blocks for the workers to fetch.
+			orderedBlockQueue <- firstBlock
 			return
 		}
 
